@@ -54,7 +54,7 @@ CLAIMS.update({
         "note": TB,
     },
     "C19": {
-        "text": "Theorems written_keys_determined (keys written are a function of URL key, Vary lines and normalised selecting values only), no_identical_references, index_growth_bounded, invalidate_complete. PARTIAL: the induction over histories giving keys(store) ⊆ S(A) is not done in Lean; the monitor checks key count and index length against the number of distinct (resource, Vary, selecting values) combinations over long repetitions of a finite request alphabet.",
+        "text": "Theorems written_keys_determined (keys written are a function of URL key, Vary lines and normalised selecting values only), index_invariant + every_reachable_index_bounded (for EVERY history an index holds at most as many references as there are distinct variants), store_keys_never_exceed, invalidate_complete, replaced_response_is_removed (a store deletes the response whose reference it overwrites once nothing names it) and every_stored_response_is_named / entries_bounded_by_index: for EVERY sequential fault-free history of one resource (ReachableRes: steps are the effects of traces of the model's own storeResponse / invalidateCache run with the index the store holds) every stored response is named by its index, so entry keys are bounded by the index bound. Outside the theorems: overlapping exchanges and failing writes (the at-rest monitor excludes the same histories), and that the origin's Vary values come from a finite set. The monitor checks key count, index length and 'no entry left unnamed at rest' over long repetitions of a finite request alphabet.",
         "note": TB,
     },
 })
